@@ -15,7 +15,7 @@ Uses the Run object of bin/check: self.violation, self.cov, self.notes.
 import os, re, shutil, subprocess
 import vp
 
-CALLS = ["openat", "write", "fchmod", "fsync", "close", "renameat", "rename", "renameat2", "unlinkat", "unlink",
+CALLS = ["openat", "read", "write", "fchmod", "fsync", "close", "renameat", "rename", "renameat2", "unlinkat", "unlink",
          "mkdirat", "mkdir", "newfstatat", "ftruncate", "pwrite64", "fdatasync", "link", "linkat"]
 ERRS = {"openat": "EACCES", "write": "ENOSPC", "fchmod": "EPERM", "fsync": "EIO", "close": "EIO",
         "renameat": "EACCES", "rename": "EACCES", "renameat2": "EACCES", "mkdirat": "EACCES", "mkdir": "EACCES",
@@ -259,9 +259,9 @@ def run(self):
         d = os.path.join(base, "e%d" % vi)
         fname = os.path.join(d, "cfgdir", "pprof", "settings.json")
 
-        def echild(inject=None, log=None):
+        def echild(inject=None, log=None, first_fault=""):
             shutil.rmtree(os.path.join(d, "cfgdir"), ignore_errors=True)
-            cmd = [hb, "c19-edits", fname, variant]
+            cmd = [hb, "c19-edits", fname, variant, first_fault]
             if log:
                 cmd = ["strace", "-f", "-xx", "-s", "1000000", "-e", "trace=" + ",".join(CALLS)] + \
                       (["-e", "inject=" + inject] if inject else []) + ["-o", log] + cmd
@@ -291,6 +291,27 @@ def run(self):
             stats["edit_fault_points"] += 1
             cases.append({"in": case["in"], "obs": case["obs"], "gen": "fs-edits",
                           "what": "%s with %s failing (%s), then menu / save / delete / save in the same process" % (variant, c["name"], ERRS[c["name"]])})
+        # the READ part of the edit: opening / reading settings.json fails (permission errors and EIO);
+        # the child is told so (the fault is an input of the model: such a request must fail with
+        # "could not read settings" and leave the file alone)
+        rfd = None
+        for j, c in enumerate(win):
+            if j >= start:
+                break
+            errs_here = []
+            if c["name"] == "openat" and fname.encode() in strs(c["args"]) and "O_CREAT" not in c["args"] and (c["ret"] or -1) >= 0:
+                rfd = c["ret"]
+                errs_here = ["EACCES", "EPERM", "EIO"]
+            elif c["name"] == "read" and rfd is not None and re.match(r"\s*%d," % rfd, c["args"]) and (c["ret"] or 0) > 0:
+                errs_here = ["EIO"]
+            for e in errs_here:
+                rc, case = echild(inject="%s:error=%s:when=%d" % (c["name"], e, c["ordinal"]), log=os.path.join(d, "r%d%s.log" % (j, e)), first_fault="read")
+                if case is None:
+                    self.violation(dict(kind="c19fs-edits-child-failed", rc=rc, variant=variant, syscall=c["name"]), False)
+                    continue
+                stats["edit_read_fault_points"] = stats.get("edit_read_fault_points", 0) + 1
+                cases.append({"in": case["in"], "obs": case["obs"], "gen": "fs-edits",
+                              "what": "%s whose read of the settings file fails (%s = %s), then menu / save / delete / save in the same process" % (variant, c["name"], e)})
     fails, errs, wall = vp.eval_cases(self.cfg["rmod"], self.cfg["judge"], cases, shard=12, tag="c19fs")
     self.cov["evaluations"] += len(cases)
     self.cov["c19_fs"] = dict(stats, cases=len(cases), eval_wall_s=round(wall, 2))
